@@ -413,6 +413,35 @@ func TestC13(t *testing.T) {
 			}
 		})
 
+		// tens of thousands of definitions in one file (whatever the decoder
+		// counts or indexes definitions with must not wrap)
+		if hx.FirstShard() {
+			for _, ndef := range []int{65534, 65540, 70001} {
+				s := &fitmodel.Stream{HeaderSize: 12, Proto: 0x20, Recs: []fitmodel.Rec{
+					{IsDef: true, Local: 0, Global: 0, Fields: []fitmodel.FieldDef{{Num: 0, Size: 1, Base: 0}}}, {Local: 0, Raw: []byte{4}},
+					{IsDef: true, Local: 1, Global: 20, Fields: []fitmodel.FieldDef{{Num: 4, Size: 1, Base: 2}}},
+				}}
+				for i := 3; i < ndef; i++ {
+					l := byte(2 + i%14)
+					fnum := []byte{3, 4, 13}[i%3] // heart_rate, cadence, temperature
+					base := byte(2)
+					if fnum == 13 {
+						base = 1
+					}
+					s.Recs = append(s.Recs, fitmodel.Rec{IsDef: true, Local: l, BigEndian: i%2 == 1, Global: 20, Fields: []fitmodel.FieldDef{{Num: fnum, Size: 1, Base: base}}})
+					if i%16 == 0 || i > ndef-40 {
+						s.Recs = append(s.Recs, fitmodel.Rec{Local: l, Raw: []byte{byte(1 + i%100)}}, fitmodel.Rec{Local: 1, Raw: []byte{byte(1 + i%90)}})
+					}
+				}
+				c := streamCase{FileType: 4, Stream: s, Text: fmt.Sprintf("(%d definitions over 15 local types, records in between)", ndef)}
+				rec.Eval("many-definitions", 1)
+				rec.NonTrivialEnum(1)
+				if msg, ok := checkStream(rec, c); !ok {
+					rec.Fail("many-definitions", "", msg, c)
+				}
+			}
+		}
+
 		hx.RapidCheck(t, rec, "machine", func(rt *rapid.T, fail func(string, string, any)) {
 			d := gen.D{T: rt}
 			ft := prof.FileTypes[d.Int(0, len(prof.FileTypes)-1, "ft")]
